@@ -50,6 +50,25 @@ PID = 31337
 # ------------------------------------------------------------------------------ translator
 
 
+class _Keys(dict):
+    """facts of one function, each extracted on its own: a key whose extraction fails holds the exception (raised
+    only when THAT fact is asked for), so that one unrecognised literal does not take its neighbours with it"""
+
+    def put(self, key, thunk):
+        try:
+            self[key] = thunk()
+        except Exception as e:  # noqa: BLE001 — stored, re-raised for this key only
+            self[key] = e
+
+    def want(self, key):
+        if key not in self:
+            raise NotRecognised("%s: not found in the source" % key)
+        v = self[key]
+        if isinstance(v, Exception):
+            raise v if isinstance(v, NotRecognised) else NotRecognised("%s: %s" % (type(v).__name__, v))
+        return v
+
+
 def _one_char(n, what):
     v = extract.const(n)
     if not isinstance(v, str) or len(v) != 1 or ord(v) > 127:
@@ -59,82 +78,103 @@ def _one_char(n, what):
 
 def _cmdline_facts(tree):
     fn = extract.find_def(tree, "cmdline", cls="Process")
-    out = {}
+    out = _Keys()
     for n in ast.walk(fn):
         if isinstance(n, ast.Assign) and len(n.targets) == 1 and extract.dotted(n.targets[0]) == "sep" \
                 and isinstance(n.value, ast.IfExp):
             t = n.value.test
-            if not (isinstance(t, ast.Call) and extract.dotted(t.func) == "data.endswith" and len(t.args) == 1):
-                raise NotRecognised("sep test is %s" % extract.unparse(t))
-            out["test"] = _one_char(t.args[0], "sep test")
-            out["nul"] = _one_char(n.value.body, "sep (then)")
-            out["space"] = _one_char(n.value.orelse, "sep (else)")
-        if isinstance(n, ast.If) and isinstance(n.test, ast.BoolOp) and isinstance(n.test.op, ast.And) \
-                and len(n.test.values) == 3:
-            a, b, c = n.test.values
-            if isinstance(a, ast.Compare) and extract.dotted(a.left) == "sep" and isinstance(a.ops[0], ast.Eq) \
-                    and isinstance(b, ast.Compare) and extract.unparse(b) == "len(cmdline) == 1" \
-                    and isinstance(c, ast.Compare) and isinstance(c.ops[0], ast.In) \
-                    and extract.dotted(c.comparators[0]) == "data":
-                out["r2sep"] = _one_char(a.comparators[0], "rule-2 sep")
-                out["r2in"] = _one_char(c.left, "rule-2 in")
-                sp = [x for x in extract.calls_in(n, "split") if extract.dotted(x.func) == "data.split"]
-                if len(sp) != 1 or len(sp[0].args) != 1:
-                    raise NotRecognised("rule-2 split not recognised")
-                out["r2split"] = _one_char(sp[0].args[0], "rule-2 split")
+
+            def test_char(t=t):
+                if not (isinstance(t, ast.Call) and extract.dotted(t.func) == "data.endswith" and len(t.args) == 1):
+                    raise NotRecognised("sep test is %s" % extract.unparse(t))
+                return _one_char(t.args[0], "sep test")
+            out.put("test", test_char)
+            out.put("nul", lambda n=n: _one_char(n.value.body, "sep (then)"))
+            out.put("space", lambda n=n: _one_char(n.value.orelse, "sep (else)"))
+        if isinstance(n, ast.If) and isinstance(n.test, ast.BoolOp) and isinstance(n.test.op, ast.And):
+            # the single-piece rule: its conjuncts are looked for independently, in any order
+            hit = False
+            for v in n.test.values:
+                if isinstance(v, ast.Compare) and len(v.ops) == 1 and extract.dotted(v.left) == "sep" \
+                        and isinstance(v.ops[0], ast.Eq):
+                    out.put("r2sep", lambda v=v: _one_char(v.comparators[0], "rule-2 sep"))
+                    hit = True
+                if isinstance(v, ast.Compare) and len(v.ops) == 1 and isinstance(v.ops[0], ast.In) \
+                        and extract.dotted(v.comparators[0]) == "data":
+                    out.put("r2in", lambda v=v: _one_char(v.left, "rule-2 in"))
+                    hit = True
+            if hit:
+                def r2split(n=n):
+                    if not any(isinstance(v, ast.Compare) and extract.unparse(v) == "len(cmdline) == 1"
+                               for v in n.test.values):
+                        raise NotRecognised("rule 2 no longer tests len(cmdline) == 1: %s" % extract.unparse(n.test))
+                    sp = [x for x in extract.calls_in(n, "split") if extract.dotted(x.func) == "data.split"]
+                    if len(sp) != 1 or len(sp[0].args) != 1:
+                        raise NotRecognised("rule-2 split not recognised")
+                    return _one_char(sp[0].args[0], "rule-2 split")
+                out.put("r2split", r2split)
         # how trailing separators are removed, between choosing `sep` and splitting
         if isinstance(n, ast.If) and isinstance(n.test, ast.Call) and extract.dotted(n.test.func) == "data.endswith" \
                 and len(n.test.args) == 1 and extract.dotted(n.test.args[0]) == "sep":
-            if not n.orelse and len(n.body) == 1 and extract.unparse(n.body[0]) == "data = data[:-1]":
-                out["strip1"] = True
-            else:
+            def strip_if(n=n):
+                if not n.orelse and len(n.body) == 1 and extract.unparse(n.body[0]) == "data = data[:-1]":
+                    return True
                 raise NotRecognised("trailing-separator removal is %s" % extract.unparse(n)[:80])
+            out.put("strip1", strip_if)
+        if isinstance(n, ast.While) and isinstance(n.test, ast.Call) and extract.dotted(n.test.func) == "data.endswith" \
+                and len(n.test.args) == 1 and extract.dotted(n.test.args[0]) == "sep" \
+                and len(n.body) == 1 and extract.unparse(n.body[0]) == "data = data[:-1]":
+            out["strip1"] = False                      # a loop removing them all = rstrip
         if isinstance(n, ast.Assign) and extract.unparse(n) in ("data = data.rstrip(sep)", "data = data.strip(sep)"):
-            if extract.unparse(n) != "data = data.rstrip(sep)":
-                raise NotRecognised("trailing-separator removal is %s" % extract.unparse(n))
-            out["strip1"] = False
-    if "strip1" not in out:
-        raise NotRecognised("cmdline(): no trailing-separator removal found")
-    if set(out) != {"test", "nul", "space", "r2sep", "r2in", "r2split", "strip1"}:
-        raise NotRecognised("cmdline(): shape not recognised (%s)" % sorted(out))
+            def strip_call(n=n):
+                if extract.unparse(n) != "data = data.rstrip(sep)":
+                    raise NotRecognised("trailing-separator removal is %s" % extract.unparse(n))
+                return False
+            out.put("strip1", strip_call)
     return out
 
 
 def _environ_facts(tree):
     fn = extract.find_def(tree, "parse_environ_block")
-    out = {}
+    out = _Keys()
     for c in extract.calls_in(fn, "find"):
         if extract.dotted(c.func) != "data.find":
             continue
         if len(c.args) == 2 and extract.dotted(c.args[1]) == "pos":
-            out["nul"] = _one_char(c.args[0], "environ nul")
+            out.put("nul", lambda c=c: _one_char(c.args[0], "environ nul"))
         elif len(c.args) == 3 and extract.dotted(c.args[1]) == "pos" and extract.dotted(c.args[2]) == "next_pos":
-            out["eq"] = _one_char(c.args[0], "environ eq")
-    if set(out) != {"nul", "eq"}:
-        raise NotRecognised("parse_environ_block: shape not recognised")
+            out.put("eq", lambda c=c: _one_char(c.args[0], "environ eq"))
     return out
 
 
 def _readlink_facts(tree):
     fn = extract.find_def(tree, "readlink")
-    out = {}
+    out = _Keys()
     for n in ast.walk(fn):
         if isinstance(n, ast.Subscript) and isinstance(n.value, ast.Call) \
                 and extract.dotted(n.value.func) == "path.split" and extract.const(n.slice) == 0:
-            out["nul"] = _one_char(n.value.args[0], "readlink nul")
+            out.put("nul", lambda n=n: _one_char(n.value.args[0], "readlink nul"))
         if isinstance(n, ast.Call) and extract.dotted(n.func) == "path.endswith":
-            v = extract.const(n.args[0])
-            if not isinstance(v, str) or not v.isascii():
-                raise NotRecognised("endswith literal")
-            out["suffix"] = v.encode()
+            def suffix(n=n):
+                v = extract.const(n.args[0])
+                if not isinstance(v, str) or not v.isascii():
+                    raise NotRecognised("endswith literal")
+                return v.encode()
+            out.put("suffix", suffix)
         if isinstance(n, ast.Subscript) and extract.dotted(n.value) == "path" and isinstance(n.slice, ast.Slice) \
                 and n.slice.lower is None and n.slice.upper is not None:
-            v = extract.const(n.slice.upper)
-            if not isinstance(v, int) or v >= 0:
-                raise NotRecognised("path[:%r]" % v)
-            out["cut"] = -v
-    if set(out) != {"nul", "suffix", "cut"}:
-        raise NotRecognised("readlink(): shape not recognised")
+            def cut(n=n):
+                up = n.slice.upper
+                # `path[:-10]`, or `path[:-len(' (deleted)')]` with the literal in place
+                if isinstance(up, ast.UnaryOp) and isinstance(up.op, ast.USub) and isinstance(up.operand, ast.Call) \
+                        and extract.dotted(up.operand.func) == "len" and len(up.operand.args) == 1 \
+                        and isinstance(up.operand.args[0], ast.Constant) and isinstance(up.operand.args[0].value, str):
+                    return len(up.operand.args[0].value)
+                v = extract.const(up)
+                if not isinstance(v, int) or v >= 0:
+                    raise NotRecognised("path[:%r]" % (v,))
+                return -v
+            out.put("cut", cut)
     return out
 
 
@@ -151,29 +191,51 @@ def _is_bytes_expr(n, bytes_names):
 
 def _name_facts(tree):
     fn = extract.find_def(tree, "name", cls="Process")
+    out = _Keys()
     bytes_names = set()
     for n in ast.walk(fn):
         if isinstance(n, ast.Assign) and len(n.targets) == 1 and isinstance(n.targets[0], ast.Name) \
                 and _is_bytes_expr(n.value, set()):
             bytes_names.add(n.targets[0].id)
-    min_len = len_on_bytes = None
+    tests = []
     for n in ast.walk(fn):
-        if isinstance(n, ast.Compare) and isinstance(n.left, ast.Call) and extract.dotted(n.left.func) == "len" \
-                and len(n.ops) == 1:
-            if not isinstance(n.ops[0], ast.GtE):
-                raise NotRecognised("length test is %s" % extract.unparse(n))
-            if min_len is not None:
-                raise NotRecognised("two length tests")
-            min_len = extract.const(n.comparators[0])
-            len_on_bytes = _is_bytes_expr(n.left.args[0], bytes_names)
-    sw = [c for c in extract.calls_in(fn, "startswith")]
-    if min_len is None or len(sw) != 1 or len(sw[0].args) != 1:
-        raise NotRecognised("name(): shape not recognised")
-    recv_bytes = _is_bytes_expr(sw[0].func.value, bytes_names)
-    arg_bytes = _is_bytes_expr(sw[0].args[0], bytes_names)
-    if not (len_on_bytes == recv_bytes == arg_bytes):
-        raise NotRecognised("name(): length and prefix tests are on different kinds of string")
-    return {"min": min_len, "bytes": len_on_bytes}
+        if isinstance(n, ast.Compare) and len(n.ops) == 1:
+            l, r, op = n.left, n.comparators[0], n.ops[0]
+            if isinstance(r, ast.Call) and extract.dotted(r.func) == "len":     # `15 <= len(x)`
+                flip = {ast.LtE: ast.GtE, ast.Lt: ast.Gt, ast.GtE: ast.LtE, ast.Gt: ast.Lt, ast.Eq: ast.Eq}
+                if type(op) in flip:
+                    l, r, op = r, l, flip[type(op)]()
+            if isinstance(l, ast.Call) and extract.dotted(l.func) == "len" and len(l.args) == 1:
+                tests.append((n, l, r, op))
+
+    def min_len():
+        if len(tests) != 1:
+            raise NotRecognised("%d length tests in name()" % len(tests))
+        n, l, r, op = tests[0]
+        v = extract.const(r)
+        if not isinstance(v, int) or v < 0:
+            raise NotRecognised("length test is %s" % extract.unparse(n))
+        if isinstance(op, ast.GtE):
+            return v
+        if isinstance(op, ast.Gt):                     # `len(x) > N` is `len(x) >= N + 1`: the model follows
+            return v + 1
+        raise NotRecognised("length test is %s" % extract.unparse(n))
+    out.put("min", min_len)
+
+    def on_bytes():
+        if len(tests) != 1:
+            raise NotRecognised("%d length tests in name()" % len(tests))
+        len_on_bytes = _is_bytes_expr(tests[0][1].args[0], bytes_names)
+        sw = [c for c in extract.calls_in(fn, "startswith")]
+        if len(sw) != 1 or len(sw[0].args) != 1:
+            raise NotRecognised("name(): %d startswith tests" % len(sw))
+        recv_bytes = _is_bytes_expr(sw[0].func.value, bytes_names)
+        arg_bytes = _is_bytes_expr(sw[0].args[0], bytes_names)
+        if not (len_on_bytes == recv_bytes == arg_bytes):
+            raise NotRecognised("name(): length and prefix tests are on different kinds of string")
+        return len_on_bytes
+    out.put("bytes", on_bytes)
+    return out
 
 
 def _open_text_raw(tree):
@@ -206,16 +268,15 @@ def _clause_classes(h):
     elts = t.elts if isinstance(t, ast.Tuple) else [t]
     names = []
     for e in elts:
-        nm = extract.dotted(e).split(".")[-1]
-        if nm not in KNOWN_EXC:
-            raise NotRecognised("except clause names %r" % extract.unparse(e))
-        names.append(nm)
+        # a class the model does not know (not in KNOWN_EXC) is kept under its own name: `catches` lets it catch
+        # nothing, so the clause drops out of the table and the obligation shows the new clause list
+        names.append(extract.dotted(e).split(".")[-1] or extract.unparse(e))
     return sorted(set(names))
 
 
 def _clause_tag(h):
     """what an `except` body does: "pass" | "raise" (bare re-raise / `raise <bound name>`) | "guess"
-    (`return guess_it(fallback=<bound name>)`)"""
+    (`return guess_it(fallback=<bound name>)`) | "other" (anything else)"""
     body = [x for x in h.body if not (isinstance(x, ast.Expr) and isinstance(x.value, ast.Constant))]
     if body and all(isinstance(x, ast.Pass) for x in body):
         return "pass"
@@ -227,7 +288,9 @@ def _clause_tag(h):
             and len(body[0].value.keywords) == 1 and body[0].value.keywords[0].arg == "fallback" \
             and h.name and extract.dotted(body[0].value.keywords[0].value) == h.name:
         return "guess"
-    raise NotRecognised("except body not recognised: %s" % extract.unparse(h)[:120])
+    # anything else (logging + re-raise, a different return …): its own tag — the clause then handles its
+    # exceptions neither with "pass" nor with "guess", and the obligation fails with the new clause list shown
+    return "other"
 
 
 def _guards(tr, pred):
@@ -271,38 +334,160 @@ def _is_assign_call(stmt, target, func, nargs=0, kw=None):
 def _front_clauses(tree):
     """the `except` clauses of psutil.Process.name() around `cmdline = self.cmdline()`, of psutil.Process.exe()
     around `exe = self._proc.exe()` and around `exe = guess_it(fallback=exe)`, and the class `guess_it` selects
-    the fallbacks it raises with"""
-    nm = extract.find_def(tree, "name", cls="Process")
-    ex = extract.find_def(tree, "exe", cls="Process")
-    out = {}
-    out["name"] = _clauses(_try_guarding(nm, "name(): self.cmdline()",
-                                         lambda st: _is_assign_call(st, "cmdline", "self.cmdline")))
-    # no other call of cmdline() in name() (an unguarded one would bypass the clauses)
-    if sum(1 for c in extract.calls_in(nm, "cmdline") if extract.dotted(c.func) == "self.cmdline") != 1:
-        raise NotRecognised("name(): self.cmdline() is called more than once")
-    out["native"] = _clauses(_try_guarding(ex, "exe(): self._proc.exe()",
-                                           lambda st: _is_assign_call(st, "exe", "self._proc.exe")))
-    out["guess"] = _clauses(_try_guarding(ex, "exe(): guess_it(fallback=exe)",
-                                          lambda st: _is_assign_call(st, "exe", "guess_it", kw=["fallback"])))
-    gi = [n for n in ex.body if isinstance(n, ast.FunctionDef) and n.name == "guess_it"]
-    if len(gi) != 1:
-        raise NotRecognised("exe(): guess_it not found")
-    sel = []
-    for n in ast.walk(gi[0]):
-        if isinstance(n, ast.If) and isinstance(n.test, ast.Call) and extract.dotted(n.test.func) == "isinstance" \
-                and len(n.test.args) == 2 and extract.dotted(n.test.args[0]) == "fallback":
-            if not (len(n.body) == 1 and isinstance(n.body[0], ast.Raise)
-                    and extract.dotted(n.body[0].exc) == "fallback" and not n.orelse):
-                raise NotRecognised("guess_it: isinstance branch is not `raise fallback`")
-            cls = extract.dotted(n.test.args[1]).split(".")[-1]
-            if cls not in KNOWN_EXC:
-                raise NotRecognised("guess_it: isinstance(fallback, %s)" % cls)
-            sel.append(cls)
-    if len(sel) != 1:
-        raise NotRecognised("guess_it: %d isinstance(fallback, …) tests" % len(sel))
-    if [extract.unparse(x) for x in gi[0].body if isinstance(x, ast.Return)] != ["return fallback"]:
-        raise NotRecognised("guess_it does not end in `return fallback`")
-    out["reraise"] = sel[0]
+    the fallbacks it raises with — four facts, extracted independently of each other"""
+    out = _Keys()
+
+    def name_clauses():
+        nm = extract.find_def(tree, "name", cls="Process")
+        cl = _clauses(_try_guarding(nm, "name(): self.cmdline()",
+                                    lambda st: _is_assign_call(st, "cmdline", "self.cmdline")))
+        # no other call of cmdline() in name() (an unguarded one would bypass the clauses)
+        if sum(1 for c in extract.calls_in(nm, "cmdline") if extract.dotted(c.func) == "self.cmdline") != 1:
+            raise NotRecognised("name(): self.cmdline() is called more than once")
+        return cl
+    out.put("name", name_clauses)
+    out.put("native", lambda: _clauses(_try_guarding(extract.find_def(tree, "exe", cls="Process"),
+                                                     "exe(): self._proc.exe()",
+                                                     lambda st: _is_assign_call(st, "exe", "self._proc.exe"))))
+    out.put("guess", lambda: _clauses(_try_guarding(extract.find_def(tree, "exe", cls="Process"),
+                                                    "exe(): guess_it(fallback=exe)",
+                                                    lambda st: _is_assign_call(st, "exe", "guess_it", kw=["fallback"]))))
+
+    def reraise():
+        ex = extract.find_def(tree, "exe", cls="Process")
+        gi = [n for n in ex.body if isinstance(n, ast.FunctionDef) and n.name == "guess_it"]
+        if len(gi) != 1:
+            raise NotRecognised("exe(): guess_it not found")
+        sel = []
+        for n in ast.walk(gi[0]):
+            if isinstance(n, ast.If) and isinstance(n.test, ast.Call) and extract.dotted(n.test.func) == "isinstance" \
+                    and len(n.test.args) == 2 and extract.dotted(n.test.args[0]) == "fallback":
+                if not (len(n.body) == 1 and isinstance(n.body[0], ast.Raise)
+                        and extract.dotted(n.body[0].exc) == "fallback" and not n.orelse):
+                    raise NotRecognised("guess_it: isinstance branch is not `raise fallback`")
+                # an unknown class name is kept as it is: `catches` knows no exception of it, the obligation fails
+                sel.append(extract.dotted(n.test.args[1]).split(".")[-1] or extract.unparse(n.test.args[1]))
+        if len(sel) != 1:
+            raise NotRecognised("guess_it: %d isinstance(fallback, …) tests" % len(sel))
+        if [extract.unparse(x) for x in gi[0].body if isinstance(x, ast.Return)] != ["return fallback"]:
+            raise NotRecognised("guess_it does not end in `return fallback`")
+        return sel[0]
+    out.put("reraise", reraise)
+    return out
+
+
+def _decorated_with(cls_node, deco):
+    """the methods of a class carrying decorator `deco` — also those defined under a class-level `if POSIX:` /
+    `if hasattr(…):` (psutil.Process.uids is), nested functions and nested classes excluded"""
+    out = []
+    stack = list(cls_node.body)
+    while stack:
+        n = stack.pop()
+        if isinstance(n, (ast.FunctionDef, ast.AsyncFunctionDef)):
+            if any(extract.dotted(d).split(".")[-1] == deco for d in n.decorator_list):
+                out.append(n.name)
+            continue
+        if isinstance(n, (ast.ClassDef, ast.Lambda)):
+            continue
+        stack.extend(x for x in ast.iter_child_nodes(n) if isinstance(x, ast.stmt))
+    return sorted(set(out))
+
+
+def _activated_in(fn):
+    """names X of the `self.X.cache_activate(self)` / `self._proc.X…` statements of a function"""
+    out = []
+    for c in extract.calls_in(fn, "cache_activate"):
+        d = extract.dotted(c.func).split(".")
+        if len(d) >= 3 and d[0] == "self":
+            out.append(".".join(d[1:-1]))
+    return sorted(out)
+
+
+def _memo_facts(linux, init):
+    """which methods answer from a per-block cache inside oneshot(): the `@memoize_when_activated` methods of the
+    platform Process and of the front-end Process, and what `oneshot_enter` / `Process.oneshot` activate"""
+    out = _Keys()
+    out.put("linuxMemo", lambda: _decorated_with(extract.find_class(linux, "Process"), "memoize_when_activated"))
+    out.put("linuxEnter", lambda: _activated_in(extract.find_def(linux, "oneshot_enter", cls="Process")))
+    out.put("frontMemo", lambda: _decorated_with(extract.find_class(init, "Process"), "memoize_when_activated"))
+    out.put("frontEnter", lambda: _activated_in(extract.find_def(init, "oneshot", cls="Process")))
+    return out
+
+
+def _wrap_facts(linux):
+    """`wrap_exceptions`: which path the FileNotFoundError handler tests to tell "the process is gone" (#2418)"""
+    out = _Keys()
+
+    def gone_test():
+        fn = extract.find_def(linux, "wrap_exceptions")
+        hs = [h for n in ast.walk(fn) if isinstance(n, ast.Try) for h in n.handlers
+              if h.type is not None and "FileNotFoundError" in extract.unparse(h.type)]
+        if len(hs) != 1:
+            raise NotRecognised("wrap_exceptions: %d FileNotFoundError handlers" % len(hs))
+        tests = [c for c in ast.walk(hs[0]) if isinstance(c, ast.Call)
+                 and extract.dotted(c.func) in ("os.path.exists", "os.path.lexists", "os.path.isdir", "os.path.isfile")]
+        if len(tests) != 1 or len(tests[0].args) != 1:
+            return "no-existence-test" if not tests else "several-existence-tests"
+        a = tests[0].args[0]
+        if isinstance(a, ast.JoinedStr) and a.values and isinstance(a.values[-1], ast.Constant):
+            return str(a.values[-1].value)          # what follows `{pid}`: "/stat"
+        if isinstance(a, ast.JoinedStr):
+            return ""                               # the path ends with `{pid}`: the directory itself
+        return extract.unparse(a)
+    out.put("goneTest", gone_test)
+
+    def zombie_first():
+        fn = extract.find_def(linux, "wrap_exceptions")
+        res = {}
+        for n in ast.walk(fn):
+            if isinstance(n, ast.Try):
+                for h in n.handlers:
+                    nm = extract.unparse(h.type) if h.type is not None else ""
+                    first = h.body[0] if h.body else None
+                    res[nm] = isinstance(first, ast.Expr) and isinstance(first.value, ast.Call) \
+                        and extract.dotted(first.value.func) == "self._raise_if_zombie"
+        return sorted(k for k, v in res.items() if v)
+    out.put("zombieFirst", zombie_first)
+    return out
+
+
+def _is_zombie_facts(linux):
+    """`Process._is_zombie` parses stat itself: which parenthesis, which bytes after it, which letter"""
+    out = _Keys()
+    fn = extract.find_def(linux, "_is_zombie", cls="Process")
+
+    def last_paren():
+        cs = [c for c in ast.walk(fn) if isinstance(c, ast.Call) and extract.dotted(c.func) in ("data.rfind", "data.find",
+                                                                                               "data.rindex", "data.index")]
+        if len(cs) != 1 or extract.const(cs[0].args[0]) != b")":
+            raise NotRecognised("_is_zombie: the search for ')' is not recognised")
+        return extract.dotted(cs[0].func) in ("data.rfind", "data.rindex")
+    out.put("last", last_paren)
+
+    def _off(e):
+        if isinstance(e, ast.BinOp) and isinstance(e.op, ast.Add) and extract.dotted(e.left) == "rpar":
+            v = extract.const(e.right)
+            if isinstance(v, int) and v >= 0:
+                return v
+        if extract.dotted(e) == "rpar":
+            return 0
+        raise NotRecognised("_is_zombie: slice bound %s" % extract.unparse(e))
+
+    def window():
+        sl = [n for n in ast.walk(fn) if isinstance(n, ast.Subscript) and extract.dotted(n.value) == "data"
+              and isinstance(n.slice, ast.Slice)]
+        if len(sl) != 1 or sl[0].slice.lower is None or sl[0].slice.upper is None:
+            raise NotRecognised("_is_zombie: state slice not recognised")
+        return (_off(sl[0].slice.lower), _off(sl[0].slice.upper))
+    out.put("window", window)
+
+    def letter():
+        cmp = [n for n in ast.walk(fn) if isinstance(n, ast.Compare) and len(n.ops) == 1 and isinstance(n.ops[0], ast.Eq)
+               and isinstance(n.comparators[0], ast.Constant) and isinstance(n.comparators[0].value, bytes)]
+        if len(cmp) != 1:
+            raise NotRecognised("_is_zombie: comparison with the state letter not recognised")
+        return extract.const(cmp[0].comparators[0])
+    out.put("letter", letter)
     return out
 
 
@@ -312,67 +497,105 @@ def _lean_clauses(cl):
 
 
 def facts(snap, F):
-    linux = extract.parse_module(snap, "_pslinux.py")
-    common = extract.parse_module(snap, "_common.py")
-    init = extract.parse_module(snap, "__init__.py")
     memo = {}
 
-    def get(key, fn, tree):
+    def mod(rel):
+        """a module's AST, parsed once; a syntax error / missing file skips only the facts that need it"""
+        if rel not in memo:
+            try:
+                memo[rel] = extract.parse_module(snap, rel)
+            except Exception as e:  # noqa: BLE001
+                memo[rel] = NotRecognised("%s: %s: %s" % (rel, type(e).__name__, e))
+        if isinstance(memo[rel], Exception):
+            raise memo[rel]
+        return memo[rel]
+
+    def get(key, fn, *rels):
+        """the `_Keys` of one source function (computed once); only a vanished function skips all of its facts"""
         if key not in memo:
             try:
-                memo[key] = fn(tree)
-            except Exception as e:  # re-raised for every fact of this group
-                memo[key] = e
+                memo[key] = fn(*[mod(r) for r in rels])
+            except Exception as e:  # noqa: BLE001
+                memo[key] = e if isinstance(e, NotRecognised) else NotRecognised("%s: %s" % (type(e).__name__, e))
         if isinstance(memo[key], Exception):
             raise memo[key]
         return memo[key]
 
+    L, C, I = "_pslinux.py", "_common.py", "__init__.py"
     nat = extract.lean_nat
-    F.try_add("cmdlineSepTest", "Nat", lambda: nat(get("c", _cmdline_facts, linux)["test"]),
+    strs = lambda xs: extract.lean_list(xs, extract.lean_str)  # noqa: E731
+    F.try_add("cmdlineSepTest", "Nat", lambda: nat(get("c", _cmdline_facts, L).want("test")),
               "cmdline(): the character tested by `data.endswith(...)` when choosing the separator")
-    F.try_add("cmdlineSepNul", "Nat", lambda: nat(get("c", _cmdline_facts, linux)["nul"]),
+    F.try_add("cmdlineSepNul", "Nat", lambda: nat(get("c", _cmdline_facts, L).want("nul")),
               "cmdline(): the separator when the test holds")
-    F.try_add("cmdlineSepSpace", "Nat", lambda: nat(get("c", _cmdline_facts, linux)["space"]),
+    F.try_add("cmdlineSepSpace", "Nat", lambda: nat(get("c", _cmdline_facts, L).want("space")),
               "cmdline(): the separator otherwise")
-    F.try_add("cmdlineRule2Sep", "Nat", lambda: nat(get("c", _cmdline_facts, linux)["r2sep"]),
+    F.try_add("cmdlineRule2Sep", "Nat", lambda: nat(get("c", _cmdline_facts, L).want("r2sep")),
               "cmdline(): `sep == ...` in the single-piece rule")
-    F.try_add("cmdlineRule2In", "Nat", lambda: nat(get("c", _cmdline_facts, linux)["r2in"]),
+    F.try_add("cmdlineRule2In", "Nat", lambda: nat(get("c", _cmdline_facts, L).want("r2in")),
               "cmdline(): `... in data` in the single-piece rule")
-    F.try_add("cmdlineRule2Split", "Nat", lambda: nat(get("c", _cmdline_facts, linux)["r2split"]),
+    F.try_add("cmdlineRule2Split", "Nat", lambda: nat(get("c", _cmdline_facts, L).want("r2split")),
               "cmdline(): `data.split(...)` in the single-piece rule")
-    F.try_add("cmdlineStripsOneSep", "Bool", lambda: extract.lean_bool(get("c", _cmdline_facts, linux)["strip1"]),
+    F.try_add("cmdlineStripsOneSep", "Bool", lambda: extract.lean_bool(get("c", _cmdline_facts, L).want("strip1")),
               "cmdline(): exactly one trailing separator is removed (`if data.endswith(sep): data = data[:-1]`: true) "
               "or all of them (`data = data.rstrip(sep)`: false)")
-    F.try_add("environNul", "Nat", lambda: nat(get("e", _environ_facts, common)["nul"]),
+    F.try_add("environNul", "Nat", lambda: nat(get("e", _environ_facts, C).want("nul")),
               "parse_environ_block: the entry terminator searched from `pos`")
-    F.try_add("environEq", "Nat", lambda: nat(get("e", _environ_facts, common)["eq"]),
+    F.try_add("environEq", "Nat", lambda: nat(get("e", _environ_facts, C).want("eq")),
               "parse_environ_block: the character separating name and value")
-    F.try_add("readlinkNul", "Nat", lambda: nat(get("r", _readlink_facts, linux)["nul"]),
+    F.try_add("readlinkNul", "Nat", lambda: nat(get("r", _readlink_facts, L).want("nul")),
               "readlink(): `path.split(...)[0]`")
-    F.try_add("deletedSuffix", "List Nat", lambda: extract.lean_bytes(get("r", _readlink_facts, linux)["suffix"]),
+    F.try_add("deletedSuffix", "List Nat", lambda: extract.lean_bytes(get("r", _readlink_facts, L).want("suffix")),
               "readlink(): the suffix tested with endswith")
-    F.try_add("deletedCut", "Nat", lambda: nat(get("r", _readlink_facts, linux)["cut"]),
+    F.try_add("deletedCut", "Nat", lambda: nat(get("r", _readlink_facts, L).want("cut")),
               "readlink(): number of characters cut by `path[:-N]`")
-    F.try_add("nameMinLen", "Nat", lambda: nat(get("n", _name_facts, init)["min"]),
-              "Process.name(): `len(...) >= N`")
-    F.try_add("nameTestOnBytes", "Bool", lambda: extract.lean_bool(get("n", _name_facts, init)["bytes"]),
+    F.try_add("nameMinLen", "Nat", lambda: nat(get("n", _name_facts, I).want("min")),
+              "Process.name(): `len(...) >= N` (`> N-1`)")
+    F.try_add("nameTestOnBytes", "Bool", lambda: extract.lean_bool(get("n", _name_facts, I).want("bytes")),
               "Process.name(): are the length and prefix tests made on the fs-encoded bytes (true) or on the decoded str (false)?")
-    F.try_add("openTextNoNewlineTranslation", "Bool", lambda: extract.lean_bool(_open_text_raw(common)),
+    F.try_add("openTextNoNewlineTranslation", "Bool", lambda: extract.lean_bool(_open_text_raw(mod(C))),
               "open_text(): is the file opened with newline='\\n' or '' (true) or in universal-newlines mode (false)?")
     CL = "List (List String × String)"
-    F.try_add("nameCmdlineClauses", CL, lambda: _lean_clauses(get("f", _front_clauses, init)["name"]),
-              "Process.name(): the except clauses around `cmdline = self.cmdline()`, in order: (classes, pass|raise)")
-    F.try_add("exeNativeClauses", CL, lambda: _lean_clauses(get("f", _front_clauses, init)["native"]),
-              "Process.exe(): the except clauses around `exe = self._proc.exe()`: (classes, guess|pass|raise)")
-    F.try_add("exeGuessClauses", CL, lambda: _lean_clauses(get("f", _front_clauses, init)["guess"]),
-              "Process.exe(): the except clauses around `exe = guess_it(fallback=exe)`: (classes, pass|raise)")
-    F.try_add("guessReraiseClass", "String", lambda: extract.lean_str(get("f", _front_clauses, init)["reraise"]),
+    F.try_add("nameCmdlineClauses", CL, lambda: _lean_clauses(get("f", _front_clauses, I).want("name")),
+              "Process.name(): the except clauses around `cmdline = self.cmdline()`, in order: (classes, pass|raise|other)")
+    F.try_add("exeNativeClauses", CL, lambda: _lean_clauses(get("f", _front_clauses, I).want("native")),
+              "Process.exe(): the except clauses around `exe = self._proc.exe()`: (classes, guess|pass|raise|other)")
+    F.try_add("exeGuessClauses", CL, lambda: _lean_clauses(get("f", _front_clauses, I).want("guess")),
+              "Process.exe(): the except clauses around `exe = guess_it(fallback=exe)`: (classes, pass|raise|other)")
+    F.try_add("guessReraiseClass", "String", lambda: extract.lean_str(get("f", _front_clauses, I).want("reraise")),
               "guess_it(): the class C of `if isinstance(fallback, C): raise fallback`")
+    # round 3: what a oneshot() block caches, the #2418 test of wrap_exceptions, _is_zombie's own stat parser
+    LS = "List String"
+    F.try_add("linuxMemoized", LS, lambda: strs(get("m", _memo_facts, L, I).want("linuxMemo")),
+              "_pslinux.Process: the methods decorated with @memoize_when_activated (sorted)")
+    F.try_add("linuxOneshotEnter", LS, lambda: strs(get("m", _memo_facts, L, I).want("linuxEnter")),
+              "_pslinux.Process.oneshot_enter: the methods X of `self.X.cache_activate(self)` (sorted)")
+    F.try_add("frontMemoized", LS, lambda: strs(get("m", _memo_facts, L, I).want("frontMemo")),
+              "psutil.Process: the methods decorated with @memoize_when_activated (sorted)")
+    F.try_add("frontOneshotActivates", LS, lambda: strs(get("m", _memo_facts, L, I).want("frontEnter")),
+              "psutil.Process.oneshot: the X of `self.X.cache_activate(self)` (sorted)")
+    F.try_add("wrapGoneTest", "String", lambda: extract.lean_str(get("w", _wrap_facts, L).want("goneTest")),
+              "wrap_exceptions, FileNotFoundError: what follows `{pid}` in the path whose existence is tested (#2418)")
+    F.try_add("wrapZombieFirst", LS, lambda: strs(get("w", _wrap_facts, L).want("zombieFirst")),
+              "wrap_exceptions: the handlers that begin with `self._raise_if_zombie()` (sorted)")
+    F.try_add("isZombieLastParen", "Bool", lambda: extract.lean_bool(get("z", _is_zombie_facts, L).want("last")),
+              "_is_zombie: is the LAST `)` of stat searched (rfind: true) or the first (find: false)?")
+    F.try_add("isZombieStateWindow", "Nat × Nat",
+              lambda: extract.lean_pair(*[nat(x) for x in get("z", _is_zombie_facts, L).want("window")]),
+              "_is_zombie: `data[rpar + A : rpar + B]` as (A, B)")
+    F.try_add("isZombieLetter", "List Nat", lambda: extract.lean_bytes(get("z", _is_zombie_facts, L).want("letter")),
+              "_is_zombie: the bytes the state is compared with")
 
 
 # ------------------------------------------------------------------------------ worlds <-> JSON
 
 ERRNO = {"ENOENT": errno.ENOENT, "ESRCH": errno.ESRCH, "EACCES": errno.EACCES}
+
+
+def stat_of(w):
+    """state of /proc/<pid>/stat ITSELF while /proc/<pid> exists: "ok" | "missing" (a vanishing process keeps its
+    directory a little longer than the files in it, psutil #2418) | "denied" (open answers EACCES)"""
+    return w.get("stat", "ok") if w["dir"] else "ok"
 
 
 def hx(b):
@@ -385,13 +608,16 @@ def world_json(w):
 
     def l(x):
         return {"target": hx(x[1])} if x[0] == "target" else {"err": x[1]}
-    return {"dir": w["dir"], "zombie": w["zombie"], "comm": hx(w["comm"]),
-            "cmdline": f(w["cmdline"]), "environ": f(w["environ"]),
-            "exe": l(w["exe"]), "cwd": l(w["cwd"]),
-            "fs": [[hx(p), k] for p, k in sorted(w["fs"].items())],
-            "uid": w.get("uid", 0), "tty": w.get("tty", 0),
-            "users": [[u, hx(n)] for u, n in sorted(w.get("users", {}).items())],
-            "ttys": [[t, hx(n)] for t, n in sorted(w.get("ttys", {}).items())]}
+    o = {"dir": w["dir"], "zombie": w["zombie"], "comm": hx(w["comm"]),
+         "cmdline": f(w["cmdline"]), "environ": f(w["environ"]),
+         "exe": l(w["exe"]), "cwd": l(w["cwd"]),
+         "fs": [[hx(p), k] for p, k in sorted(w["fs"].items())],
+         "uid": w.get("uid", 0), "tty": w.get("tty", 0),
+         "users": [[u, hx(n)] for u, n in sorted(w.get("users", {}).items())],
+         "ttys": [[t, hx(n)] for t, n in sorted(w.get("ttys", {}).items())]}
+    if stat_of(w) != "ok":
+        o["stat"] = stat_of(w)
+    return o
 
 
 def world_from_json(j):
@@ -405,7 +631,8 @@ def world_from_json(j):
             "fs": {bytes.fromhex(p): k for p, k in j["fs"]},
             "uid": j.get("uid", 0), "tty": j.get("tty", 0),
             "users": {u: bytes.fromhex(n) for u, n in j.get("users", [])},
-            "ttys": {t: bytes.fromhex(n) for t, n in j.get("ttys", [])}}
+            "ttys": {t: bytes.fromhex(n) for t, n in j.get("ttys", [])},
+            "stat": j.get("stat", "ok")}
 
 
 def step_json(s):
@@ -475,7 +702,15 @@ CACHED_CALLS = ("name", "username", "terminal")
 NEEDS_DIR = ("ppid", "is_running")
 STAT_READERS = ("status", "cpu_times", "terminal", "name", "cpu_num", "ppid")
 STATUS_READERS = ("uids", "username", "gids", "num_threads", "num_ctx_switches")
-WARM_EXTRAS = ("cmdline", "cwd", "create_time", "is_running", "nice")
+# warm-ups that must NOT leave anything behind in the block: a stale answer after one of them means that a method
+# C12 speaks about has become block-cached (`_proc.exe` / `_proc.cwd` = the platform methods, called directly so that
+# the front end's own `_exe` memo stays out of the picture)
+WARM_EXTRAS = ("cmdline", "cwd", "create_time", "is_running", "nice", "environ", "environ", "_proc.exe", "_proc.exe",
+               "_proc.cwd", "_proc.cmdline", "_proc.environ")
+FRESH_WARMUPS = ("cmdline", "cwd", "environ", "_proc.exe", "_proc.cwd", "_proc.cmdline", "_proc.environ")
+# modes / object sources usable when /proc/<pid>/stat itself is missing or unreadable (process_iter(), is_running()
+# and the PID-reuse check read stat and have their own memory: C01/C02's subject)
+STAT_SAFE_MODES = ("plain", "oneshot", "oneshot_nested", "again", "as_dict", "oneshot_as_dict")
 # extras of as_dict(attrs=[call, …]): methods that cannot raise NoSuchProcess while /proc/<pid> exists (an
 # exception other than AccessDenied/ZombieProcess of ANY attribute aborts as_dict, in an order we do not control)
 DICT_EXTRAS = ("status", "ppid", "uids", "gids", "username", "terminal", "cwd", "create_time", "pid", "num_threads")
@@ -669,7 +904,12 @@ class Impl:
         self.tty_paths = {p: nr for nr, p in self.ttys.items()}
         if not w["dir"]:
             return
-        fp.write(d + "/stat", self._stat_line(w))
+        if stat_of(w) != "missing":
+            fp.write(d + "/stat", self._stat_line(w))
+            if stat_of(w) == "denied":
+                self.file_err[os.fsencode(fp.path(d + "/stat"))] = "EACCES"
+        else:
+            fp.mkdir(d)
         fp.write(d + "/status", self._status_file(w))
         for nm in ("cmdline", "environ"):
             kind, v = w[nm]
@@ -784,7 +1024,10 @@ class Impl:
             self.materialise(s["w0"])
             for c in s["warm"]:
                 try:
-                    getattr(proc, c)()
+                    tgt = proc
+                    for part in c.split(".")[:-1]:
+                        tgt = getattr(tgt, part)
+                    getattr(tgt, c.split(".")[-1])()
                 except Exception:  # noqa: BLE001 — only what the block has cached afterwards matters
                     pass
 
@@ -1167,7 +1410,12 @@ def gen_name_pair(rng):
 
 
 FAMILIES = ["argv", "title", "mixed", "empty", "environ", "link", "exe_fallback", "exe_cache", "name",
-            "tree", "anything", "exe_denied", "name_err", "zombie_id", "oneshot_reuse", "proctitle", "environ_kernel"]
+            "tree", "anything", "exe_denied", "name_err", "zombie_id", "oneshot_reuse", "proctitle", "environ_kernel",
+            "vanishing", "paren_comm"]
+
+# names with a `)` (and what looks like a state letter behind it): `_is_zombie` has its OWN parser of stat (the
+# state letter is what follows the LAST `)`), apart from `_parse_stat_file`
+PAREN_COMMS = [b"a) Z", b"x) S", b")", b") Z (", b"(a) Z b", b"Z) Z) S", b"a)Z", b"k) R (z) Z"]
 
 UIDS = [0, 1000, 1001, 65534, 12345, 4294967294]
 TTY_NRS = [0, 34816, 34817, 1025, 1088, 99999]
@@ -1192,10 +1440,10 @@ def gen_w0(rng, w, call):
         w0["zombie"] = not w["zombie"]
     if rng.random() < 0.3:
         w0["cmdline"] = ("data", gen_cmdline_bytes(rng, rng.choice(["argv", "title", "empty"])))
-    if rng.random() < 0.2:
+    if rng.random() < 0.5:
         w0["exe"] = ("target", b"/usr/bin/earlier")
         w0["cwd"] = ("target", b"/earlier")
-    if rng.random() < 0.2:
+    if rng.random() < 0.5:
         w0["environ"] = ("data", b"EARLIER=1\0")
     r = rng.random()
     if r < 0.08:
@@ -1219,6 +1467,8 @@ def gen_warm(rng):
 
 
 def set_mode(rng, case, s, mode):
+    if stat_of(s["w"]) != "ok" and mode not in STAT_SAFE_MODES:
+        mode = rng.choice(STAT_SAFE_MODES)
     if mode == "reiter" and case.get("obj", "ctor") == "ctor":
         mode = "plain"
     if mode in ("warm", "after_block"):
@@ -1238,6 +1488,8 @@ def set_mode(rng, case, s, mode):
 def decorate(rng, case):
     """choose how the object is obtained and the mode of every step"""
     case["obj"] = rng.choice(["ctor", "ctor", "iter", "iter", "iter_info"])
+    if any(stat_of(s["w"]) != "ok" for s in case["steps"]):
+        case["obj"] = rng.choice(["ctor", "iter"])
     steps = []
     for s in case["steps"]:
         s = dict(s)
@@ -1445,6 +1697,34 @@ def gen_case(rng, fam, impl=None):
         w["environ"] = ("data", blk)
         w["zombie"] = rng.random() < 0.05
         steps = [{"call": "environ", "w": w}]
+    elif fam == "vanishing":
+        # /proc/<pid> still listed while its stat is already gone (psutil #2418), or stat unreadable: every call x
+        # every state of its own file / link
+        w["stat"] = rng.choice(["missing", "missing", "missing", "denied"])
+        w["zombie"] = rng.random() < 0.4            # what stat WOULD say: nobody can read it
+        w["comm"] = gen_name_pair(rng)[0]
+        gen_identity(rng, w)
+        fe = lambda: rng.choice([("err", "ENOENT"), ("err", "ENOENT"), ("err", "ESRCH"), ("err", "EACCES")])  # noqa: E731
+        w["cmdline"] = fe() if rng.random() < 0.7 else ("data", rng.choice([b"", b"/usr/bin/prog\0-x\0"]))
+        w["environ"] = fe() if rng.random() < 0.7 else ("data", b"A=1\0")
+        w["exe"] = fe() if rng.random() < 0.7 else ("target", b"/usr/bin/prog")
+        w["cwd"] = fe() if rng.random() < 0.7 else ("target", b"/")
+        w["fs"] = {b"/usr/bin/prog": "filex"}
+        calls = ["cmdline", "environ", "name", "terminal", "cwd", "exe", "username", "cmdline", "name"]
+        rng.shuffle(calls)
+        steps = [{"call": c, "w": w} for c in calls[:rng.randrange(2, 7)]]
+    elif fam == "paren_comm":
+        w["comm"] = rng.choice(PAREN_COMMS)
+        w["zombie"] = rng.random() < 0.5
+        gen_identity(rng, w)
+        w["cmdline"] = rng.choice([("data", b""), ("data", b""), ("err", "ESRCH"), ("err", "ENOENT"),
+                                   ("data", render_argv([b"/bin/" + w["comm"], b"x"]))])
+        w["environ"] = rng.choice([("data", b"A=1\0"), ("err", "ESRCH"), ("err", "ENOENT")])
+        w["exe"] = rng.choice([("err", "ENOENT"), ("err", "ESRCH"), ("err", "EACCES"), ("target", b"/usr/bin/p")])
+        w["cwd"] = rng.choice([("err", "ENOENT"), ("err", "ESRCH"), ("target", b"/")])
+        calls = ["cmdline", "environ", "cwd", "exe", "name", "terminal"]
+        rng.shuffle(calls)
+        steps = [{"call": c, "w": w} for c in calls[:rng.randrange(2, 6)]]
     elif fam == "oneshot_reuse":
         # the block-cached calls, several times on one object, the world changing between the steps
         for _ in range(rng.randrange(2, 5)):
@@ -1545,12 +1825,68 @@ def exhaustive_mode_cases():
                         s["w0"] = dict(other)
                         if not w["dir"] and call in CACHED_CALLS and mode == "warm":
                             s["w0"] = dict(w)
-                        s["warm"] = ["status", "uids", "ppid", "name"]
+                        s["warm"] = ["status", "uids", "ppid", "name", "environ", "cmdline", "cwd", "_proc.exe",
+                                     "_proc.cwd", "_proc.environ", "_proc.cmdline"]
                     if mode == "as_dict_many":
                         s["extra"] = [x for x in ("status", "uids", "terminal", "ppid", "username") if x != call]
                     if mode != "plain":
                         s["mode"] = mode
                     cases.append({"family": "exh-mode:%s/%s/%s/%s" % (wn, call, obj, mode), "obj": obj, "steps": [s]})
+    return cases
+
+
+def exhaustive_stat_cases():
+    """(stat missing / unreadable) x (stat would say Z?) x (state of the call's own file or link) x (7 calls) x
+    (the modes usable without a readable stat)"""
+    cases = []
+    states = {"data": None, "empty": None, "ENOENT": None, "ESRCH": None, "EACCES": None}
+    k = 0
+    for st in ("missing", "denied"):
+        for z in (False, True):
+            for sn in states:
+                w = default_world()
+                w.update(stat=st, zombie=z, comm=b"a-vanishing-proc", uid=1001, tty=34816,
+                         fs={b"/usr/bin/prog": "filex"})
+                if sn in ("ENOENT", "ESRCH", "EACCES"):
+                    w.update(cmdline=("err", sn), environ=("err", sn), exe=("err", sn), cwd=("err", sn))
+                elif sn == "empty":
+                    w.update(cmdline=("data", b""), environ=("data", b""), exe=("target", b""), cwd=("target", b""))
+                else:
+                    w.update(cmdline=("data", b"/usr/bin/prog\0-x\0"), environ=("data", b"A=1\0"),
+                             exe=("target", b"/usr/bin/real"), cwd=("target", b"/home (deleted)"))
+                for call in ("cmdline", "environ", "exe", "cwd", "name", "username", "terminal"):
+                    mode = STAT_SAFE_MODES[k % len(STAT_SAFE_MODES)]
+                    obj = ("ctor", "iter")[(k // len(STAT_SAFE_MODES)) % 2]
+                    k += 1
+                    s = {"call": call, "w": w}
+                    if mode != "plain":
+                        s["mode"] = mode
+                    cases.append({"family": "exh-stat:%s/%s/%s/%s" % (st, "Z" if z else "S", sn, call), "obj": obj,
+                                  "steps": [s]})
+    return cases
+
+
+def exhaustive_paren_cases():
+    """`_is_zombie`'s own stat parser: names containing `)` (followed by what looks like a state letter) x the real
+    state x every situation in which the zombie test decides the answer"""
+    cases = []
+    for comm in PAREN_COMMS:
+        for z in (False, True):
+            sits = {
+                "empty-cmdline": ("cmdline", dict(cmdline=("data", b""))),
+                "cmdline-esrch": ("cmdline", dict(cmdline=("err", "ESRCH"))),
+                "cmdline-enoent": ("cmdline", dict(cmdline=("err", "ENOENT"))),
+                "environ-esrch": ("environ", dict(environ=("err", "ESRCH"))),
+                "cwd-withheld": ("cwd", dict(cwd=("err", "ENOENT"))),
+                "exe-withheld": ("exe", dict(exe=("err", "ESRCH"), cmdline=("data", b""))),
+                "name": ("name", dict(cmdline=("data", b""))),
+                "terminal": ("terminal", dict(tty=34816)),
+            }
+            for sn, (call, kw) in sits.items():
+                w = default_world()
+                w.update(comm=comm, zombie=z, **kw)
+                cases.append({"family": "exh-paren:%s/%s/%s" % (comm.decode(), "Z" if z else "S", sn),
+                              "steps": [{"call": call, "w": w}]})
     return cases
 
 
@@ -1753,6 +2089,17 @@ def features(case):
         w, c = s["w"], s["call"]
         if not w["dir"]:
             f.add("gone")
+        if stat_of(w) != "ok":
+            f.add("stat:" + stat_of(w))
+            if c in ("cmdline", "environ") and w[c] == ("err", "ENOENT"):
+                f.add("stat:%s+file-ENOENT" % stat_of(w))
+        if b")" in w["comm"]:
+            f.add("comm:paren")
+            if w["comm"].split(b")")[1][:2] in (b" Z", b" S") and c != "username":
+                f.add("comm:paren-then-state-letter" + (":zombie" if w["zombie"] else ":live"))
+        for wc in s.get("warm", ()):
+            if wc in FRESH_WARMUPS:
+                f.add("warm:fresh-source:" + wc)
         if w["zombie"]:
             f.add("zombie")
         if c in ("cmdline", "name", "exe") and w["cmdline"][0] == "data":
@@ -1909,9 +2256,13 @@ def correspond(ctx, res):
             set_mode(ctx.rng, c, c["steps"][0], MODES[(k // len(OBJS)) % len(MODES)])
         exh_exe = exhaustive_exe_cases()
         exh_mode = exhaustive_mode_cases()
+        exh_stat = exhaustive_stat_cases()
+        exh_paren = exhaustive_paren_cases()
         cases.extend(exh)
         cases.extend(exh_exe)
         cases.extend(exh_mode)
+        cases.extend(exh_stat)
+        cases.extend(exh_paren)
         total_lines = 0
         CH = 3000
         silent = 0
@@ -1952,8 +2303,13 @@ def correspond(ctx, res):
                           "over them); exe(): all %d combinations of link {ENOENT, ESRCH, EACCES, '', path, path (deleted)} x "
                           "cmdline {abs exec, abs non-exec, abs dir, abs absent, relative, title, empty, EACCES, ESRCH, ENOENT} "
                           "x {live, zombie}, called twice and once more after the link became readable; modes: all %d "
-                          "combinations of 6 worlds x 7 calls x 10 modes x 3 object sources; the random families are samples"
-                          % (len(exh), len(exh_exe), len(exh_mode)))
+                          "combinations of 6 worlds x 7 calls x 10 modes x 3 object sources (the warm-up of the `warm` / "
+                          "`after_block` modes also calls environ, cmdline, cwd and the platform exe/cwd/environ/cmdline "
+                          "in the EARLIER world: nothing of them may survive in the block); stat itself: all %d "
+                          "combinations of /proc/<pid>/stat {missing, unreadable} x {S, Z} x own file/link {data, empty, "
+                          "ENOENT, ESRCH, EACCES} x 7 calls; _is_zombie's parser: all %d combinations of %d names "
+                          "containing ')' x {S, Z} x 8 situations decided by the zombie test; the random families are samples"
+                          % (len(exh), len(exh_exe), len(exh_mode), len(exh_stat), len(exh_paren), len(PAREN_COMMS)))
         res.extra["driver_lines"] = total_lines
         res.extra["random_cases"] = n_rand
     finally:
@@ -1992,8 +2348,8 @@ def _simplify_candidates(case):
             for k in range(len(s["warm"])):
                 yield dict(case, steps=steps[:i] + [dict(s, warm=s["warm"][:k] + s["warm"][k + 1:])] + steps[i + 1:])
         w = s["w"]
-        for key in ("cmdline", "environ", "exe", "cwd", "comm", "fs", "zombie", "dir", "uid", "tty"):
-            if w[key] != dflt[key]:
+        for key in ("cmdline", "environ", "exe", "cwd", "comm", "fs", "zombie", "dir", "uid", "tty", "stat"):
+            if w.get(key, "ok") != dflt.get(key, "ok"):
                 w2 = dict(w)
                 w2[key] = dflt[key]
                 yield dict(case, steps=steps[:i] + [dict(s, w=w2)] + steps[i + 1:])
